@@ -844,8 +844,10 @@ class DMRGBackendImpl(MPSBackendImpl):
 
 def create_impl(data: SequenceData, config: MPSConfig) -> MPSBackendImpl:
 
-    if data.lindblad_ops:
-        return NoisyMPSBackendImpl(config, data)
+    # DMRG first: DMRGBackendImpl refuses noise models with noise, whereas
+    # dispatching on the Lindblad operators first silently ran noisy TDVP.
     if config.solver == Solver.DMRG:
         return DMRGBackendImpl(config, data)
+    if data.lindblad_ops:
+        return NoisyMPSBackendImpl(config, data)
     return MPSBackendImpl(config, data)
